@@ -38,6 +38,7 @@ type ReloadableOrchestrator struct {
 	downstreamSinks sinksByClientNumber
 	downstreamAddrs addrsByClientNumber
 	downstreamMutex *xsync.RBMutex // read-lock for using/adding downstream sinks, write-lock for renewing the downstream Orchestrator
+	stopped         bool           // set by Shutdown under the write-lock: no more reloading
 }
 
 // NewReloadableOrchestrator creates a reloadable orchestrator wrapping the given downstream orchestrator
@@ -94,6 +95,11 @@ func (orc *ReloadableOrchestrator) NewSink(clientAddress string, clientNumber ba
 
 // Shutdown shuts down both of the reloadable orchestrator and the current downstream orchestrator
 func (orc *ReloadableOrchestrator) Shutdown() {
+	// wait for a reload in progress and keep later ones out: a reload shuts down and replaces the downstream orchestrator too
+	orc.downstreamMutex.Lock()
+	defer orc.downstreamMutex.Unlock()
+
+	orc.stopped = true
 	orc.downstream.Shutdown()
 }
 
@@ -109,6 +115,11 @@ func (orc *ReloadableOrchestrator) reload() {
 	// wait and then block all ReloadableSink(s)
 	orc.downstreamMutex.Lock()
 	defer orc.downstreamMutex.Unlock()
+
+	if orc.stopped {
+		orc.logger.Info("abort reloading: already shut down")
+		return
+	}
 
 	// close sinks created with old configuration and shut down
 	for _, sink := range orc.downstreamSinks {
